@@ -97,7 +97,11 @@ func (w *Worker) hardCheck(pc []*Term, more []*Term, syms []*Term, extra string)
 	t0 := time.Now()
 	r, m := w.solver.CheckModel(pc, more, syms, extra)
 	if r == Unknown && !w.cfg.NoFallback {
-		r, m, _ = w.fallback(pc, more, syms, extra, w.cfg.HardTimeoutS)
+		to := w.cfg.HardTimeoutS
+		if w.shortFallback > 0 {
+			to = w.shortFallback
+		}
+		r, m, _ = w.fallback(pc, more, syms, extra, to)
 	}
 	return r, m, time.Since(t0).Milliseconds()
 }
@@ -237,6 +241,14 @@ func (ex *Exec) assertProp(cond *Term, msg string, pos token.Pos) {
 // recorded outputs under it (translator validation input).
 func (ex *Exec) finishPath(res *PathResult) {
 	run := ex.w.run
+	if res.Stop.kind == StopUnwind && run.Cfg.StepLimitModels {
+		// C09: inputs that drive the decoder past the step budget are candidates
+		// for non-termination; the native replay (with a watchdog) decides
+		if r, m := ex.w.solver.CheckModel(ex.pc, nil, ex.symOrder, ""); r == Sat {
+			res.Model = ex.fullModel(m)
+		}
+		return
+	}
 	if res.Stop.kind != StopDone && res.Stop.kind != StopPanic {
 		return
 	}
